@@ -24,6 +24,8 @@ sys.path.insert(0, HERE)
 
 PRELUDE = '''
 import struct
+from dataclasses import dataclass
+from enum import IntEnum
 
 
 class Box:
@@ -59,6 +61,51 @@ class Box:
         for x in self.log:
             t += x
         return t
+
+
+class Outer:
+    """an object holding another one, reached through a property; exceptions of the inner
+    object's methods are caught here after the inner object has already changed"""
+
+    def __init__(self, v):
+        self._box = Box(v)
+        self.n = 0
+        self._lim = 5
+
+    @property
+    def box(self):
+        return self._box
+
+    @property
+    def lim(self):
+        return self._lim
+
+    @lim.setter
+    def lim(self, v):
+        self._lim = v
+
+    def feed(self, xs):
+        for x in xs:
+            try:
+                self.box.put(x)
+            except ValueError:
+                self.n += 1
+            if self.box.size > self.lim:
+                break
+        return self.box.v
+
+
+class Kind(IntEnum):
+    A = 0
+    B = 1
+    C = 2
+
+
+@dataclass
+class Rec:
+    k: int
+    name: str = "x"
+    tags: tuple = ()
 '''
 
 
@@ -190,7 +237,7 @@ class Gen:
 
     def stmt(self, ind, d=0):
         p = "    " * ind
-        k = self.r.randrange(16)
+        k = self.r.randrange(19)
         if d > 1:
             k = self.r.randrange(8)
         out = []
@@ -256,9 +303,37 @@ class Gen:
                                                                 "%s[:3]" % self.pick(self.byts)))
             pool.append(name)
             pool.append("q" + name)
-        else:
+        elif k == 15 and self.r.random() < 0.5:
             out.append(p + "if %s:" % self.bool_e(1))
             out.append("    " * (ind + 1) + "raise %s" % self.pick(["ValueError", "IndexError", "KeyError"]))
+        else:
+            kk = self.r.randrange(7)
+            if kk == 0:
+                out.append(p + "outer.feed(%s)" % self.list_e(1))
+            elif kk == 1:
+                out.append(p + "outer.lim = %s" % self.int_e(1))
+            elif kk == 2:
+                name, pool = self.fresh("i")
+                out.append(p + "%s = Kind(%s).value + int(Kind(%s %% 3) == Kind.B) + int(Kind.C is Kind(%s & 3))" % (
+                    name, self.pick(["0", "1", "2", self.int_e(2)]), self.int_e(2), self.int_e(2)))
+                pool.append(name)
+            elif kk == 3:
+                name, pool = self.fresh("i")
+                out.append(p + "%s = len(f\"{%s}-{%s}\" + str(%s)) + len(Rec(%s, f\"n{%s}\").name)" % (
+                    name, self.int_e(2), self.pick(self.ints), self.int_e(2), self.int_e(2), self.int_e(2)))
+                pool.append(name)
+            elif kk == 4:
+                name, pool = self.fresh("i")
+                out.append(p + "%s = {1: %s, 2: %s, %s: 7}.get(%s)" % (name, self.int_e(2), self.int_e(2), self.int_e(2), self.int_e(2)))
+                out.append(p + "if %s is None:" % name)
+                out.append("    " * (ind + 1) + "%s = -1" % name)
+                pool.append(name)
+            elif kk == 5:
+                out.append(p + "rec = Rec(%s, tags=(%s, %s))" % (self.int_e(1), self.int_e(2), self.int_e(2)))
+                out.append(p + "rec.k += rec.tags[%s]" % self.pick(["0", "1", "-1", "2"]))
+                self.recs = True
+            else:
+                out.append(p + "outer.box.bump(%s)" % self.int_e(1))
         return out
 
     def block(self, ind, d, allow_new=True):
@@ -274,10 +349,11 @@ class Gen:
 
     def function(self, name):
         self.ints, self.byts, self.lists = ["a"], ["b"], ["c"]
-        lines = ["def %s(a, b, c):" % name, "    box = Box(a & 255)"]
+        lines = ["def %s(a, b, c):" % name, "    box = Box(a & 255)", "    outer = Outer(a & 63)", "    rec = Rec(0)"]
         for _ in range(self.r.randrange(3, 8)):
             lines += self.stmt(1, 0)
-        lines.append("    return (%s)" % ", ".join(self.ints + self.byts + self.lists + ["box.v", "box.log", "box.size", "box.total()"]))
+        lines.append("    return (%s)" % ", ".join(self.ints + self.byts + self.lists + ["box.v", "box.log", "box.size", "box.total()", "outer.box.v", "outer.box.log", "outer.n", "outer.lim",
+                                                           "rec.k", "rec.name", "rec.tags"]))
         return "\n".join(lines)
 
 
@@ -381,6 +457,10 @@ def main():
     print("pylite-fuzz seed=%d functions=%d runs=%d disagreements=%d unsupported-functions=%d skipped-slow=%d" % (
         a.seed, a.funcs, len(cmds), bad, len(unsupported), slow))
     print("outcomes:", dict(sorted(stats.items(), key=lambda kv: -kv[1])[:12]))
+    compared = sum(v for k, v in stats.items() if not k.startswith("unsupported") and k != "fuel")
+    if compared * 2 < len(cmds):
+        print("pylite-fuzz: fewer than half of the runs were inside the subset - the generator and the interpreter have drifted apart")
+        return 1
     if bad == 0:
         shutil.rmtree(work, ignore_errors=True)
     return 1 if bad else 0
